@@ -181,7 +181,9 @@ claim('C03', 'proof',
 claim('C12', 'proof',
       'Alignment kernel: `DNA._sym_clone` hands the copy the very spec object of the original, carries over exactly the clone-able user data and metadata keys, '
       'and does not write the original; `DNASpec.first_dna` / `next_dna` / `random_dna` and `DNA.from_fn` hand out the generated DNA after exactly one `use_spec` with the spec '
-      'that was asked -- also when `attach_spec` is omitted -- and unbound only on an explicit attach_spec=False; the copy of a sealed DNA is sealed again after its metadata is re-attached and a deep clone holds deep copies of the retained metadata values (21 obligations in all). The exported views themselves (to_numbers/from_numbers, to_dict/from_dict under all option combinations, '
+      'that was asked -- also when `attach_spec` is omitted -- and unbound only on an explicit attach_spec=False; the copy of a sealed DNA is sealed again after its metadata is re-attached and a deep clone holds deep copies of the retained metadata values (21 obligations in all). Lookups follow edits: the change hook `DNA._on_change` resolves to (today Object._on_change -> DNA._on_bound), run on the edited node and on every '
+      'ancestor, leaves both lazily built lookup tables (`_decision_by_id_cache`, `_named_decisions`) dropped after an update of a decision below the node -- a child replaced by index, a value assigned, at depth 1 or 2 '
+      '(5 obligations, shape-bounded: concrete update paths; metadata-only updates are not constrained). The exported views themselves (to_numbers/from_numbers, to_dict/from_dict under all option combinations, '
       'compact/verbose JSON, lookups by id/name/decision point) and alignment after every library operation that produces DNAs are covered by the bounded tier only.',
       'NARROW proof: the view functions thread mutable closures and whole-tree recursion and are outside the engine\'s reach; for them the check is a bounded '
       'stand-in (all valid DNAs of generated specs up to a size bound x all option combinations). Trusted: engine; `Object._sym_clone` returns a fresh copy (C07).',
